@@ -86,8 +86,9 @@ QSchema16 == SchemaOf("q", <<Obj("q", "QS", TStruct(<<Field("v", TString, TRUE),
 \* CaseFields: fields whose names differ only in letter case are distinct fields, each covered exactly once
 \* Fixed: "the schema fixes the field's value" whatever the constant is and however the loaders hold it.  A constant is a
 \* scalar with a value; the value keeps the Go type the loader produced, which is not always the kind's own:
-\*   JSON Schema {"type": "number", "const": 2}  float64 holding int64      CUE  uint8 & 3      uint8 holding int64
-\*   CUE float32 & 1.5                            float32 holding float64    YAML as: int32 5    int32 holding int
+\*   JSON Schema {"type": "number", "const": 2}   float64 holding int64 (bound to the real loader by the 'loaded' route)
+\*   types written in YAML pass configuration     the declared kind holding a Go int        (int32 holding int)
+\*   types built through the library / by passes  any kind holding int64 or float64        (uint8 holding int64, float32 holding float64)
 \* and it may be falsy (false, 0, "").  Each is referred to by a required field (directly, in the other package, through an
 \* alias) and written in place.
 VFloat(x) == [t |-> "float64", s |-> x]
